@@ -417,10 +417,14 @@ fn parse_delivery(s: &str) -> Option<Delivery> {
 /// fault code: Some(j) = the cache closes the connection after j PDUs (EOF at the client);
 /// Some(j | RESET) = after j PDUs the client's read fails (connection reset) instead
 const RESET: usize = 1 << 20;
+/// Some(j | WFAIL) = after j PDUs the client's writes fail (half-broken connection); the cache then
+/// sends a Serial Notify - the client's Serial Query cannot get out - and closes
+const WFAIL: usize = 1 << 21;
 fn fault_str(f: Option<usize>) -> String {
     match f {
         None => "nofault".into(),
         Some(j) if j & RESET != 0 => format!("reset{}", j & !RESET),
+        Some(j) if j & WFAIL != 0 => format!("wfail{}", j & !WFAIL),
         Some(j) => format!("close{j}"),
     }
 }
@@ -428,6 +432,7 @@ fn parse_fault(s: &str) -> Option<Option<usize>> {
     match s {
         "nofault" => Some(None),
         x if x.starts_with("reset") => x.strip_prefix("reset")?.parse::<usize>().ok().map(|j| Some(j | RESET)),
+        x if x.starts_with("wfail") => x.strip_prefix("wfail")?.parse::<usize>().ok().map(|j| Some(j | WFAIL)),
         x => x.strip_prefix("close")?.parse().ok().map(Some),
     }
 }
@@ -496,6 +501,8 @@ struct IoStat {
     parked: AtomicBool,
     /// the next read fails with ConnectionReset (set by the harness before it drops its end)
     fail: AtomicBool,
+    /// every write fails with BrokenPipe
+    fail_write: AtomicBool,
 }
 
 struct Tap {
@@ -528,6 +535,9 @@ impl AsyncRead for Tap {
 
 impl AsyncWrite for Tap {
     fn poll_write(mut self: Pin<&mut Self>, cx: &mut Context<'_>, buf: &[u8]) -> Poll<std::io::Result<usize>> {
+        if self.st.fail_write.load(Ordering::SeqCst) {
+            return Poll::Ready(Err(std::io::Error::new(std::io::ErrorKind::BrokenPipe, "broken pipe")));
+        }
         Pin::new(&mut self.inner).poll_write(cx, buf)
     }
     fn poll_flush(mut self: Pin<&mut Self>, cx: &mut Context<'_>) -> Poll<std::io::Result<()>> {
@@ -731,6 +741,21 @@ impl World {
             return;
         }
         self.drain(i);
+        if self.actors[i].fault.is_some_and(|j| j & WFAIL != 0) && self.actors[i].io.is_some() {
+            // half-broken connection: the client can still read but no longer write; a Serial Notify
+            // makes it try to send a Serial Query
+            use tokio::io::AsyncWriteExt;
+            self.actors[i].st.fail_write.store(true, Ordering::SeqCst);
+            let mut b = Vec::new();
+            let (ver, session) = (self.actors[i].ver, self.actors[i].session);
+            encode(&Pdu::SerialNotify(4242), ver, session, &mut b);
+            if let Some(io) = self.actors[i].io.as_mut() {
+                let _ = io.write_all(&b).await;
+            }
+            self.actors[i].written += b.len();
+            let _ = self.settle(i).await;
+            self.out.mach = None; // the client may legitimately have ended already
+        }
         if self.actors[i].fault.is_some_and(|j| j & RESET != 0) {
             // the session does not end by a clean EOF: the client's pending read fails
             self.actors[i].st.fail.store(true, Ordering::SeqCst);
@@ -1070,7 +1095,7 @@ impl World {
             }
         }
         let sent_n = self.actors[i].sent.len();
-        let budget = self.actors[i].fault.map(|j| (j & !RESET).saturating_sub(sent_n));
+        let budget = self.actors[i].fault.map(|j| (j & !RESET & !WFAIL).saturating_sub(sent_n));
         if self.actors[i].next_seg >= self.actors[i].segs.len() || budget == Some(0) {
             self.close(i).await;
             return;
@@ -1649,6 +1674,12 @@ fn variants(l: &Layout, mode: Mode) -> Vec<(Delivery, Option<usize>)> {
     let resets: Vec<Option<usize>> = if faults { (0..n).map(|j| Some(j | RESET)).collect() } else { vec![] };
     for f in &resets {
         out.push((Delivery::Whole, *f));
+    }
+    // ... and with the client's write side broken before the cache's next Serial Notify
+    if faults {
+        for j in 0..n {
+            out.push((Delivery::Whole, Some(j | WFAIL)));
+        }
     }
     for f in fs {
         let close_off = match f {
